@@ -100,6 +100,60 @@ def resStr : Res → String
   | .ok => "ok" | .err e => "err:" ++ errStr e | .qid n => s!"q{n}" | .found v => "found:" ++ valStr v
   | .notFound => "notfound" | .none => "-" | .bad => "bad-op"
 
+/-- one sub-operation of a race: the atomic model op (only the kinds that may race). -/
+def subOp? : List String → Option Op
+  | "store" :: ty :: slot :: st :: toks =>
+    match dtype? ty, slot.toNat?, toks.mapM entry? with
+    | some t, some sl, some set => if st == "a" then some (.store ⟨sl, t⟩ false set) else none
+    | _, _, _ => none
+  | "await" :: kind :: args =>
+    match kind, nats args with
+    | "att", some [s, c] => some (.await (.att s c))
+    | "pro", some [s] => some (.await (.pro s))
+    | "agg", some [s, rs, r, c] => some (.await (.agg s (rs * 100 + r) c))
+    | "con", some [s, b, r] => some (.await (.con s b r))
+    | _, _ => none
+  | ["cancel", q] => q.toNat?.map Op.cancel
+  | ["pubkey", a, b, c] =>
+    match nats [a, b, c] with
+    | some [a, b, c] => some (.pubkey a b c)
+    | _ => none
+  | _ => none
+
+/-- split a token list at every occurrence of `sep`. -/
+def splitToks (sep : String) (toks : List String) : List (List String) :=
+  let r := toks.foldl (fun (acc : List (List String) × List String) t =>
+    if t == sep then (acc.1 ++ [acc.2], []) else (acc.1, acc.2 ++ [t])) ([], [])
+  r.1 ++ [r.2]
+
+def insertAll {α : Type} (x : α) : List α → List (List α)
+  | [] => [[x]]
+  | y :: ys => (x :: y :: ys) :: (insertAll x ys).map (fun l => y :: l)
+
+def perms {α : Type} : List α → List (List α)
+  | [] => [[]]
+  | x :: xs => (perms xs).flatMap (insertAll x)
+
+def insertByQid (a : Nat × Key × Val) : List (Nat × Key × Val) → List (Nat × Key × Val)
+  | [] => [a]
+  | b :: bs => if a.1 < b.1 then a :: b :: bs else b :: insertByQid a bs
+
+/-- run the sub-operations in the given order (indices into `ops`); the canonical outcome lists the
+results in the order of the op line, all queries answered on the way (by id) and the final snapshot. -/
+def runOrder (cfg : Cfg) (s : State) (ops : List Op) (order : List Nat) : State × String :=
+  let r := order.foldl (fun (acc : State × List (Nat × String) × List (Nat × Key × Val)) i =>
+    match ops[i]? with
+    | none => acc
+    | some op =>
+      let x := CharonV.DutyDB.step cfg acc.1 op
+      (x.1, (i, resStr x.2.res) :: acc.2.1, acc.2.2 ++ x.2.resolved)) (s, [], [])
+  let results := (List.range ops.length).map (fun i =>
+    match r.2.1.find? (fun e => e.1 == i) with
+    | some e => e.2
+    | none => "?")
+  let resolved := r.2.2.foldl (fun acc a => insertByQid a acc) []
+  (r.1, Driver.joinWith " " results ++ " " ++ resolvedStr resolved ++ " " ++ snapStr r.1)
+
 def step (d : DState) (line : String) : DState × String :=
   let run (op : Op) (fmt : State → Out → String) : DState × String :=
     let r := CharonV.DutyDB.step d.cfg d.st op
@@ -110,6 +164,25 @@ def step (d : DState) (line : String) : DState × String :=
     match a.toNat?, b.toNat? with
     | some a, some b => ({ cfg := ⟨a == 1, b == 1⟩, st := {} }, "ok")
     | _, _ => (d, "bad-op")
+  | "race" :: rest =>
+    -- `race <sub> ; <sub> [; <sub>] => <observed outcome>`: accepted iff SOME sequential order of the
+    -- atomic sub-operations produces exactly the observed results and final state (linearisability);
+    -- the model continues from the state of the first such order.
+    match splitToks "=>" rest with
+    | [lhs, obs] =>
+      match (splitToks ";" lhs).mapM subOp? with
+      | some ops =>
+        if ops.length == 0 || ops.length > 3 then (d, "bad-op") else
+        let observed := Driver.joinWith " " obs
+        let cands := (perms (List.range ops.length)).map (runOrder d.cfg d.st ops)
+        match cands.find? (fun c => c.2 == observed) with
+        | some c => ({ d with st := c.1 }, "lin " ++ observed)
+        | none =>
+          match cands with
+          | c :: _ => ({ d with st := c.1 }, "nolin " ++ c.2)
+          | [] => (d, "bad-op")
+      | none => (d, "bad-op")
+    | _ => (d, "bad-op")
   | "store" :: ty :: slot :: st :: toks =>
     match dtype? ty, slot.toNat?, toks.mapM entry? with
     | some t, some sl, some set =>
@@ -118,14 +191,8 @@ def step (d : DState) (line : String) : DState × String :=
         (fun s o => resStr o.res ++ " " ++ resolvedStr o.resolved ++ " " ++ snapStr s)
     | _, _, _ => (d, "bad-op")
   | "await" :: kind :: args =>
-    let k? : Option Key := match kind, nats args with
-      | "att", some [s, c] => some (.att s c)
-      | "pro", some [s] => some (.pro s)
-      | "agg", some [s, rs, r, c] => some (.agg s (rs * 100 + r) c)
-      | "con", some [s, b, r] => some (.con s b r)
-      | _, _ => none
-    match k? with
-    | some k => run (.await k) (fun s o => resStr o.res ++ " " ++ resolvedStr o.resolved ++ " " ++ pendStr s)
+    match subOp? ("await" :: kind :: args) with
+    | some op => run op (fun s o => resStr o.res ++ " " ++ resolvedStr o.resolved ++ " " ++ pendStr s)
     | none => (d, "bad-op")
   | ["cancel", q] =>
     match q.toNat? with
